@@ -10,6 +10,6 @@ def vmap_methods(ctx):
         gfi.vmap_rule(ctx, m)
 
 
-RULES = [pjaxr.gfi_vmap_repeat, pjaxr.dummy_protocol_events, pjaxr.logdensity_batch_rule, pjaxr.vmap_lane_randomness, pjaxr.modular_vmap_control_flow_events, vmap_methods, gfi.vmap_narrow,
+RULES = [pjaxr.gfi_vmap_repeat, pjaxr.dummy_protocol_events, pjaxr.logdensity_batch_terms, pjaxr.vmap_lane_randomness, pjaxr.modular_vmap_control_flow_events, vmap_methods, gfi.vmap_narrow,
          pjaxr.first_leaf_guard, pjaxr.sample_batch_axes]
 FLOOR = 15
